@@ -212,6 +212,33 @@ def next_body_brace(toks, i, hi=None):
     return None
 
 
+def loop_body_brace(toks, i, hi=None):
+    """body brace of the loop whose keyword is toks[i]; for a `for` loop the pattern (which may contain
+    braces: `for S { a, b } in ..`) is skipped up to its `in`"""
+    hi = len(toks) if hi is None else hi
+    if toks[i].text != "for":
+        return next_body_brace(toks, i + 1, hi)
+    depth = 0
+    j = i + 1
+    while j < hi:
+        t = toks[j]
+        if t.kind == "punct" and t.text in _OPEN:
+            depth += 1
+        elif t.kind == "punct" and t.text in _CLOSE:
+            depth -= 1
+            if depth < 0:
+                return None
+            # a closed `{..}` that is not followed by more pattern was a body (`impl X for Y {..}`), not a pattern
+            if depth == 0 and t.text == "}" and (j + 1 >= hi or toks[j + 1].text not in ("in", ",", "|", ")", "]")):
+                return None
+        elif depth == 0 and t.kind == "punct" and t.text == ";":
+            return None
+        elif depth == 0 and t.kind == "ident" and t.text == "in":
+            return next_body_brace(toks, j + 1, hi)
+        j += 1
+    return None
+
+
 # --------------------------------------------------------------------------------------------
 # item location
 # --------------------------------------------------------------------------------------------
@@ -283,6 +310,19 @@ def _attrs_before(toks, s, lo):
 def _find_in(toks, lo, hi, spec):
     """all items matching `spec` whose keyword lies in toks[lo:hi]; returns list of
     (first_tok, last_tok, kw_idx)"""
+    top_only = spec.startswith("^")     # `^fn f`: only items directly in the searched scope, not nested ones
+    if top_only:
+        spec = spec[1:]
+        depth_of = {}
+        d = 0
+        for i in range(lo, hi):
+            t = toks[i]
+            if t.kind == "punct" and t.text in _CLOSE:
+                d -= 1
+            depth_of[i] = d
+            if t.kind == "punct" and t.text in _OPEN:
+                d += 1
+        return [c for c in _find_in(toks, lo, hi, spec) if depth_of.get(c[2], 1) == 0]
     spec_t = tok_texts(spec)
     kw = spec_t[0]
     out = []
@@ -612,10 +652,7 @@ def _loops(ts, lo, hi):
             if i + 1 < hi and ts[i + 1].text == "<":
                 continue
             # must have an `in` before the body brace
-            b = next_body_brace(ts, i, hi)
-            if b is None:
-                continue
-            if any(x.kind == "ident" and x.text == "in" for x in ts[i:b]):
+            if loop_body_brace(ts, i, hi) is not None:
                 out.append(i)
     return out
 
@@ -691,7 +728,7 @@ def annotate(text, annots):
             want_kw = a.get("keyword")
             if want_kw and ts[loops[k]].text != want_kw:
                 raise VxError("lost anchor: loop %d is `%s`, expected `%s`" % (k, ts[loops[k]].text, want_kw))
-            lb = next_body_brace(ts, loops[k] + 1, e)
+            lb = loop_body_brace(ts, loops[k], e)
             if lb is None:
                 raise VxError("lost anchor: loop body")
             if a.get("iter"):
@@ -797,7 +834,7 @@ def annotate(text, annots):
                 k = a.get("ordinal", 0)
                 if k >= len(loops):
                     raise VxError("lost anchor: loop ordinal %d, function has %d loops" % (k, len(loops)))
-                lb = next_body_brace(ts, loops[k] + 1, e)
+                lb = loop_body_brace(ts, loops[k], e)
                 le = match_close(ts, lb)
                 if at == "loop_start":
                     ins.append((ts[lb].end, "\n" + a["text"].rstrip() + "\n", "ghost", order))
